@@ -1,6 +1,7 @@
 import Rbp.Proofs.Utxo
 import Rbp.Proofs.Wire
 import Rbp.Proofs.RunSpec
+import Rbp.Props.C10
 /-!
 # C07 — unspentcsvdump lists exactly the unspent, address-bearing outputs of the range
 -/
@@ -83,5 +84,19 @@ theorem unspent_run_spec (o : Run.Opts) (key : Option Bytes) (kvs : List (Bytes 
   refine ⟨h0, ?_, ?_⟩
   · rw [hf]; simp only [Run.callbackOut, hcb]; rfl
   · rw [ho]; simp only [Run.callbackOut, hcb]; rfl
+
+
+/-- **every input.**  No hypothesis on the directory: whenever an `unspentcsvdump` run exits 0, its one file is the header line
+    followed by one row per binding of the UTXO fold over exactly the blocks that were delivered, named with the start height and
+    the last delivered height (with `listed_iff` this is the property's `exactly the unspent, address-bearing outputs`) -/
+theorem exit0_dump_is_fold_over_delivered (o : Run.Opts) (key : Option Bytes) (kvs : List (Bytes × Bytes)) (files : List Run.BlkFile)
+    (coin : Run.Coin) (hcoin : Run.coinOf o.coin = some coin) (hcb : o.callback = "unspentcsvdump")
+    (h0 : (Run.run o key kvs files).exit = 0) :
+    (Run.run o key kvs files).files =
+      [(s!"unspent-{o.start}-{o.start + (Run.deliveredBlocks o key kvs files).length - 1}.csv",
+        "txid;indexOut;height;value;address" :: unspentRows (utxo coin.version (Run.deliveredBlocks o key kvs files)))] := by
+  have := (Rbp.Props.C10.exit0_output_is_callback_over_delivered o key kvs files coin hcoin h0).1
+  rw [this]
+  simp [Run.callbackOut, hcb]
 
 end Rbp.Props.C07
